@@ -105,9 +105,10 @@ let run () =
                  | _ -> (1, 1, 1) in
                let bytes = count * size in
                let oversize = if !is_coll then size > !max_node || size = 0 else size > !pool_ns in
-               (* a request aligned above alignment_for(node size) is refused by the composable traits like an oversize one *)
-               let alfor n = if n >= 16 then 16 else (let rec g p = if 2 * p <= n then g (2 * p) else p in g 1) in
-               let oversize = oversize || (not oversize && al > alfor (max 1 (bucket size))) in
+               (* a request aligned above what is promised is refused like an oversize one: pools promise alignment_for(node size),
+                  collections alignment_for(requested size) -- also for log2 buckets, whose nodes happen to be aligned better *)
+               let alfor n = min 16 (n land (-n)) in
+               let oversize = oversize || (not oversize && al > alfor (if !is_coll then max 1 size else max 1 (bucket size))) in
                let r = match rhs with
                  | "ok" :: p :: _ -> ObsOk (zi (int_of_string p))
                  | "null" :: _ -> ObsNull
